@@ -693,6 +693,10 @@ def _value_from_self_curve(facts, body, o):
                 return False
             if c['path'] == 'section::hit_objects::slider::curve::Curve::new':
                 return True
+            if c.get('trait') in ('std::ops::FnOnce', 'std::ops::FnMut', 'std::ops::Fn') and s['args']:
+                # the value is produced by a closure handed in by the callers: every caller's closure must
+                # return Curve::new of the path's own key fields
+                return _callers_closures_return_curve(facts, body, s['args'][0])
             cb = facts.bodies.get(c['path'])
             if cb is None:
                 return False
@@ -700,6 +704,48 @@ def _value_from_self_curve(facts, body, o):
             return _returns_curve_new(facts, cb, set())
         return False
     return False
+
+
+def _callers_closures_return_curve(facts, body, o):
+    pl = op_place(o)
+    if pl is None:
+        return False
+    cur = pl['l']
+    for _ in range(8):
+        if 1 <= cur <= body.argc:
+            break
+        defs = body.defs.get(cur, [])
+        if len(defs) != 1 or defs[0][2] != 'assign':
+            return False
+        rv = defs[0][3]['rv']
+        if rv['k'] == 'use' and op_place(rv['op']) is not None and not op_place(rv['op'])['p']:
+            cur = op_place(rv['op'])['l']
+        elif rv['k'] == 'ref' and all(e['k'] == 'deref' for e in rv['pl']['p']):
+            cur = rv['pl']['l']
+        else:
+            return False
+    if not (1 <= cur <= body.argc):
+        return False
+    n = 0
+    for p2, b2 in facts.bodies.items():
+        for bb, t in b2.calls():
+            c = callee_of(t)
+            if not c or facts.ref_path(c['path']) != facts.ref_path(body.path):
+                continue
+            n += 1
+            if len(t['args']) < cur:
+                return False
+            al = op_local(t['args'][cur - 1])
+            if al is None:
+                return False
+            cty = b2.locals[al].get('closure')
+            if cty is None:
+                pl2 = resolve_ref(b2, al)
+                cty = b2.locals[pl2['l']].get('closure') if pl2 is not None and not pl2['p'] else None
+            cb = facts.bodies.get(cty) if cty else None
+            if cb is None or not _returns_curve_new(facts, cb, set()):
+                return False
+    return n > 0
 
 
 def _returns_curve_new(facts, cb, seen):
